@@ -394,7 +394,9 @@ func rewriteFile(fset *token.FileSet, name string, f *ast.File, info *types.Info
 				cc := cs.(*ast.CommClause)
 				if cc.Comm == nil {
 					hasDefault = true
-					clauses = append(clauses, &ast.CaseClause{List: []ast.Expr{&ast.UnaryExpr{Op: token.SUB, X: &ast.BasicLit{Kind: token.INT, Value: "1"}}}, Body: cc.Body})
+					// vsched.Select answers -1 for "default"; a `default:` clause (List nil) keeps
+					// the switch a terminating statement whenever the select was one
+					clauses = append(clauses, &ast.CaseClause{Body: cc.Body})
 					continue
 				}
 				vn := fmt.Sprintf("_vs%d_%d", k, idx)
@@ -425,6 +427,11 @@ func rewriteFile(fset *token.FileSet, name string, f *ast.File, info *types.Info
 			hd := "false"
 			if hasDefault {
 				hd = "true"
+			}
+			if !hasDefault {
+				// unreachable; present so that a select whose clauses all return stays terminating
+				clauses = append(clauses, &ast.CaseClause{Body: []ast.Stmt{&ast.ExprStmt{X: call(ast.NewIdent("panic"),
+					&ast.BasicLit{Kind: token.STRING, Value: strconv.Quote("vsched.Select: index out of range")})}}})
 			}
 			args := append([]ast.Expr{ast.NewIdent(hd)}, caseArgs...)
 			sw := &ast.SwitchStmt{Tag: call(sel("vsched", "Select"), args...), Body: &ast.BlockStmt{List: clauses}}
